@@ -176,4 +176,30 @@ def run(ctx):
                 ctx.violation({"fn": "rotate", "relation": "any-angle-invariants", "grid": "duplicated 0/360"},
                               "rotate(%.6g) on a grid with both 0 and 360 broke an invariant that holds for every angle (coordinates kept, Hs kept, "
                               "non-negative)" % a, {"F": v["F"], "D": D2, "E": E2, "hs": [float(da.spec.hs()), float(out.spec.hs())], "min": float(out.min())})
+    # ---- "returns exactly the requested coordinates": targets that are ALMOST the source grid (float32 copies of the frequencies,
+    # directions shifted by 2e-5 degrees) are still targets of their own
+    for v in some[: (12 if ctx.quick else 120)]:
+        da = L.build(v["F"], v["D"], v["E"])
+        if float(da.sum()) == 0 or len(v["F"]) < 2:
+            continue
+        f32 = da.freq.values.astype("float32")
+        dsh = (da.dir.values + 2e-5) % 360.0
+        for what, kw, want in (("freq as float32", dict(freq=f32), ("freq", f32.astype("float64"))),
+                               ("freq as float32 DataArray", dict(freq=xr.DataArray(f32, dims="freq")), ("freq", f32.astype("float64"))),
+                               ("dir shifted by 2e-5", dict(dir=dsh), ("dir", dsh))):
+            ctx.case(("near-identity", what, tuple(v["F"]), tuple(v["D"]), tuple(x for r in v["E"] for x in r)), True)
+            try:
+                out = da.spec.interp(**kw)
+                got = np.asarray(out[want[0]].values, float)
+                ok = got.shape == want[1].shape and np.array_equal(got, want[1])
+            except Exception as ex:  # noqa
+                ctx.violation({"fn": "interp", "relation": "requested-coordinates", "raised": type(ex).__name__}, "interp(%s) raised %s" % (what, type(ex).__name__),
+                              {"err": str(ex)[:200]})
+                continue
+            if ok:
+                ctx.replayed()
+            else:
+                ctx.violation({"fn": "interp", "relation": "requested-coordinates", "target": what},
+                              "interp(%s) did not return exactly the requested coordinates (max difference %.3g)" %
+                              (what, float(np.max(np.abs(got - want[1]))) if got.shape == want[1].shape else float("nan")), {"F": v["F"], "D": v["D"]})
     ctx.assume("exact comparison on the lattice at 1e-9; targets outside [0,360) are not generated")
